@@ -659,7 +659,31 @@ def st_message(draw, schema, mtypes=None, **kw):
     # one message in eight is sized to a BodyLength at which the number of its digits changes
     if draw(st.integers(0, 7)) == 0:
         spec = pad_to_body_length(schema, spec, draw(st.sampled_from(BODY_LENGTH_EDGES)))
+    elif draw(st.integers(0, 11)) == 0:
+        spec = inflate_high_bytes(schema, spec, draw(st.integers(0, 2 ** 32 - 1)))
     return spec
+
+
+def inflate_high_bytes(schema, spec, r):
+    """a copy of spec in which the plain string fields of the top level carry long values of 8-bit characters (0x80-0xff), 2-6 KB in total:
+    long runs of large byte values are what the word-at-a-time checksum has to carry correctly"""
+    import random
+    rnd = random.Random(r)
+    out = dict(spec)
+    budget = rnd.choice([2100, 2600, 3500, 5000, 6000])
+    for key, traits in (('b', schema.traits(spec['type'])), ('h', schema.header), ('t', schema.trailer)):
+        items = []
+        for it in spec[key]:
+            tr = traits.get(it['t'])
+            if (budget > 0 and tr is not None and it['k'] == 's' and tr.ft == FT_string and not tr.grp and not tr.automatic
+                    and not schema.fields.get(tr.tag, {}).get('realm') and tr.tag not in (8, 9, 35, 10, 49, 56)):
+                n = min(budget, rnd.randint(600, 1500))
+                lo = rnd.choice([0x80, 0xa0, 0xf0, 0xff])
+                it = dict(it, v=''.join(chr(rnd.randint(lo, 0xff)) for _ in range(n)))
+                budget -= n
+            items.append(it)
+        out[key] = items
+    return out
 
 
 def spec_features(schema, spec):
